@@ -435,7 +435,12 @@ class LogicalType(type):  # noqa
 
             # 2. try to transform in strict mode
             if not context.options.no_data_loss or not context.options.no_explicit_cast:
-                strict_options = utype.Options(no_data_loss=True, no_explicit_cast=True)
+                # a probing stage must convert the whole value: elements are not excluded / preserved here
+                # (otherwise ['1', 2] loses its convertible '1' under invalid_items='exclude')
+                strict_options = utype.Options(
+                    no_data_loss=True, no_explicit_cast=True,
+                    invalid_items="throw", invalid_keys="throw", invalid_values="throw",
+                )
 
                 for con in cls.args:
                     with context.enter(cls.combinator, options=strict_options) as new_context:
@@ -451,7 +456,10 @@ class LogicalType(type):  # noqa
             # 3. try to transform with no data loss
             # e.g. Union[str, List[str]] -> [1, 2] -> ['1', '2']
             if not context.options.no_data_loss and not context.options.no_explicit_cast:
-                no_loss_options = utype.Options(no_data_loss=True)
+                no_loss_options = utype.Options(
+                    no_data_loss=True,
+                    invalid_items="throw", invalid_keys="throw", invalid_values="throw",
+                )
 
                 for con in cls.args:
                     with context.enter(cls.combinator, options=no_loss_options) as new_context:
